@@ -6,8 +6,9 @@ Pipeline (DESIGN.md 7/C08):
      {v4, v6, v4-mapped} x source/peer relations {same, mapped form, low-4-bytes-only, other} on
      complete packets, and every parse/length class (version, advertised header length, truncation
      points, segment lengths, trailing bytes) on a reduced nibble set.  Invariant: the I-layer
-     Decide refines the P-layer (Dispatch only if MayDispatch).  Oracle self-checks: three broken
-     filters (no source comparison / address-type aliasing / no path-type test) must be refuted.
+     Decide refines the P-layer (Dispatch only if MayDispatch).  Oracle self-checks: four broken
+     filters (no source comparison / canonicalised comparison / address-type aliasing / no path-type test)
+     must be refuted.
   2. every cell is concretised by harness `snapingress replay` into 3 real datagrams (own header
      encoder) and the gateway's real ingress step is run through the guarded hook
      (inbound_datagram_check; on failure create_scmp_error into a PACKET_BUF_SIZE pool buffer).
@@ -23,8 +24,11 @@ Pipeline (DESIGN.md 7/C08):
 
 Readings adopted (less demanding): "parses" = version 0, advertised header length equals the length
 implied by the address nibbles and the path, whole header inside the datagram (payload-length
-mismatches are not a parse failure); an IPv4 source equal to the IPv4 embedded in a v4-mapped peer
-(or vice versa) MAY be dispatched (the code does not); "at most one reply": no reply at all is fine.
+mismatches are not a parse failure); "at most one reply": no reply at all is fine.
+NOT a latitude (DESIGN.md 7/C08: equality with the peer's address OF THE SAME FAMILY): the v4 / v4-mapped-v6
+twin of the peer in the other family (peer a.b.c.d with source ::ffff:a.b.c.d of type IPv6, or peer
+::ffff:a.b.c.d with IPv4 source a.b.c.d) must never be dispatched - a filter that compares canonicalised
+addresses is a violation ("dispatched:src-mappedform-peer-*").
 """
 import json
 import os
@@ -55,7 +59,7 @@ def why_not(case):
         w.append("unparsable(ver=%s,hl=%s,cut=%s)" % (case["ver"], case["hl"], case["cut"]))
     if case["st"] not in (0, 3):
         w.append("src-type-nibble-%d" % case["st"])
-    if case["rel"] not in ("same", "mappedform"):
+    if case["rel"] != "same":
         w.append("src-%s-peer-%s" % (case["rel"], case["peer"]))
     if case["pt"] not in (0, 1):
         w.append("path-type-%d" % case["pt"])
@@ -149,7 +153,7 @@ def run(c):
     cells = c.printed_json(r, "CELL")
     if not cells:
         c.fail_tool("MC_SnapIngress printed no cells")
-    for variant in ("nosrc", "alias", "nopath"):
+    for variant in ("nosrc", "canon", "alias", "nopath"):
         r0 = c.tlc(SD, "MC_SnapIngress", cfg=cfg(c, "mc_%s.cfg" % variant, MC_TMPL.format(variant=variant, gen="FALSE", full="FALSE")),
                    expect_violation=True, coverage=False, keep_printed=False)
         if "InvRefines" not in r0.violated:
@@ -214,7 +218,8 @@ def run(c):
         ontime = g["handshake"] and g["authorised_phase_done_at_s"] <= g["life"] - 6
         if not ontime:
             c.drift("gateway loop: handshake=%s, authorised phase took %.1fs; positive expectations not judged" % (g["handshake"], g["authorised_phase_done_at_s"]))
-        bad = (("authorised:spoofed-source", 33), ("authorised:onehop-path", 20), ("authorised:garbage", 16), ("lapsed:spoofed-source", None))
+        bad = (("authorised:spoofed-source", 33), ("authorised:onehop-path", 20), ("authorised:garbage", 16), ("authorised:mapped-twin", 33),
+               ("lapsed:spoofed-source", None))
         for name, code in bad:
             x = steps.get(name)
             if not x:
